@@ -384,11 +384,12 @@ let run_pshist payload =
 (* ---- tokens: <doc> (sched (n fail)...) (ewd 0|1) ---- *)
 let run_tokens payload =
   match payload with
-  | [A doc; L (A "sched" :: steps); L [A "ewd"; A ewd]] ->
+  | A doc :: L (A "sched" :: steps) :: L [A "ewd"; A ewd] :: more ->
+    let mode = match more with [L [A "mode"; A "once"]] -> FOnce | [L [A "mode"; A "oncedata"]] -> FOnceData | _ -> FSticky in
     let src = str_of_atom doc in
     let sched = List.map (function L [A n; A f] -> (nat_of_int (int_of_string n), f = "1") | _ -> failwith "sched") steps in
     let has_fail = List.exists (fun (_, f) -> f) sched in
-    let rd = { r_rest = src; r_sched = sched; r_eof_with_data = (ewd = "1") } in
+    let rd = { r_rest = src; r_sched = sched; r_eof_with_data = (ewd = "1"); r_fail_mode = mode } in
     let fuel = nat_of_int (List.length src + List.length sched + 16) in
     let ty = function TEOF -> 0 | TIdent -> 1 | TInt -> 2 | TReserved -> 3 | TString -> 4 | TOperator -> 5 | TUnknown -> 6 in
     let show = function
@@ -450,8 +451,69 @@ let run_printpol payload =
     L [A "text"; A (atom_of_str (render items))]
   | _ -> failwith "printpol payload"
 
+(* ---- JSON trees (Base/Json.v) ---- *)
+let rec sx_of_json (j : json) : Sexp.t =
+  match j with
+  | JNull -> L [A "null"]
+  | JBool b -> L [A "bool"; A (if b then "1" else "0")]
+  | JNum z -> L [A "num"; A (string_of_cz z)]
+  | JNumOther -> L [A "numother"]
+  | JStr s -> L [A "str"; A (atom_of_str s)]
+  | JArr l -> L (A "arr" :: List.map sx_of_json l)
+  | JObj l -> L (A "obj" :: List.map (fun (k, v) -> L [A (atom_of_str k); sx_of_json v]) l)
+
+let rec json_of_sx (s : Sexp.t) : json =
+  match s with
+  | L [A "null"] -> JNull
+  | L [A "bool"; A b] -> JBool (b = "1")
+  | L [A "num"; A z] -> JNum (cz_of_string z)
+  | L [A "numother"] -> JNumOther
+  | L [A "str"; A x] -> JStr (str_of_atom x)
+  | L (A "arr" :: l) -> JArr (List.map json_of_sx l)
+  | L (A "obj" :: l) -> JObj (List.map (function L [A k; v] -> (str_of_atom k, json_of_sx v) | _ -> failwith "obj member") l)
+  | s -> failwith ("bad json tree " ^ to_string s)
+
+let run_jsonenc payload =
+  match payload with
+  | [v] -> L [A "tree"; sx_of_json (encode_value print_ip (fun l -> l) (value_of_sx v))]
+  | _ -> failwith "jsonenc payload"
+
+let run_jsondec payload =
+  match payload with
+  | [t] -> (match decode_value (json_of_sx t) with Some v -> L [A "ok"; sx_of_value v] | None -> L [A "err"])
+  | _ -> failwith "jsondec payload"
+
+(* ---- policy JSON (EST) on trees ---- *)
+let annots_of_policy_sx p = match p with
+  | L l -> (match List.rev l with
+            | L (A "annots" :: kvs) :: _ -> List.map (function L [A k; A v] -> (str_of_atom k, str_of_atom v) | _ -> failwith "annot") kvs
+            | _ -> [])
+  | _ -> []
+
+let run_pjsonenc payload =
+  match payload with
+  | p :: _ ->
+    let (_, pol) = policy_of_sx p in
+    L [A "tree"; sx_of_json (enc_policy print_ip (fun l -> l) (annots_of_policy_sx p) pol)]
+  | _ -> failwith "pjsonenc payload"
+
+let run_pjsondec payload =
+  match payload with
+  | [t] ->
+    (match dec_policy (json_of_sx t) with
+     | DOk (annots, pol) ->
+       L [A "ok"; sx_of_policy "x70" (L (A "annots" :: List.map (fun (k, v) -> L [A (atom_of_str k); A (atom_of_str v)]) annots)) pol]
+     | DErr -> L [A "err"]
+     | DUnk -> L [A "unmodelled"]
+     | DFuel -> L [A "out-of-fuel"])
+  | _ -> failwith "pjsondec payload"
+
 let run_case kind payload =
   match kind with
+  | "pjsonenc" -> run_pjsonenc payload
+  | "pjsondec" -> run_pjsondec payload
+  | "jsonenc" -> run_jsonenc payload
+  | "jsondec" -> run_jsondec payload
   | "parse" -> run_parse payload
   | "printpol" -> run_printpol payload
   | "tokens" -> run_tokens payload
